@@ -79,13 +79,13 @@ func verifHarnessC06() {
 	if verifParam("post") == 1 {
 		switch verifChoice("post", 3) {
 		case 1:
-			ki := verifChoice("post-ki", len(kp.keys))
+			ki := verifChoice("post-ki", kp.hot())
 			v := verifValue("post-v")
 			verifAssert(db.Put(kp.keys[ki], v) == nil, "C06.post-put-err")
 			m.put(ki, v)
 			post = true
 		case 2:
-			ki := verifChoice("post-ki", len(kp.keys))
+			ki := verifChoice("post-ki", kp.hot())
 			verifAssert(db.Delete(kp.keys[ki]) == nil, "C06.post-delete-err")
 			m.del(ki)
 			post = true
